@@ -293,6 +293,8 @@ def run(ctx):
     exec_part(ctx, rp)
     tmgrsched_part(ctx, rp)
     agentsched_part(ctx, rp)
+    from props import timeoutsuite
+    timeoutsuite.run(ctx, 'C05')
     ops, impl = [], []
     dist = {'bulks': 0, 'tasks': 0, 'final': {}, 'faulty': 0}
     bulks = [list(b) for b in CORPUS] + [[gen_plan(rng) for _ in range(rng.choice([1, 2, 3, 5]))] for _ in range(ctx.n(45, 2000))]
@@ -378,6 +380,9 @@ CORPUS = [
 def replay(ctx, data):
     rp = rpload.load()
     i = data['input']
+    if 'timeout_watcher' in i:
+        from props import timeoutsuite
+        return timeoutsuite.replay(ctx, data, 'C05')
     if i['kind'] == 'exec':
         from props import c07
         obs, done, rec, quiet = c07.run_schedule(rp, i['choices'])
